@@ -374,8 +374,26 @@ func ruleNumDigitsSymmetry(w *World, r *RuleResult) {
 			ok = true
 		}
 	}
+	// equivalent forms: CmpAbs(b, 10^n) (10^n is positive), or an unconditional |b| copy
+	for _, c := range w.callsTo(f, "(*BigInt).CmpAbs") {
+		if tc, isC := c.Common().Args[1].(*ssa.Call); isC && w.calleeName(tc) == "tableExp10" && c.Common().Args[0] == ssa.Value(f.Params[0]) {
+			ok = true
+		}
+	}
+	for _, c := range w.callsTo(f, "(*BigInt).Cmp") {
+		tc, isC := c.Common().Args[1].(*ssa.Call)
+		if !isC || w.calleeName(tc) != "tableExp10" {
+			continue
+		}
+		for _, ac := range w.callsTo(f, "(*BigInt).Abs") {
+			if _, isA := basePtr(c.Common().Args[0]).(*ssa.Alloc); isA && basePtr(ac.Common().Args[0]) == basePtr(c.Common().Args[0]) &&
+				ac.Common().Args[1] == ssa.Value(f.Params[0]) && ac.Block().Dominates(c.Block()) {
+				ok = true
+			}
+		}
+	}
 	if ok {
-		r.ok(key, w.pos(f.Pos()), "a = |b| on the negative edge, b otherwise; compared with tableExp10(n)", true)
+		r.ok(key, w.pos(f.Pos()), "|b| (a = |b| on the negative edge and b otherwise, an unconditional Abs copy, or CmpAbs) is compared with tableExp10(n)", true)
 	} else {
 		r.bad(key, w.pos(f.Pos()), "the >128-bit path does not compare |b| with 10^n (negative values would be miscounted or crash)")
 	}
